@@ -55,7 +55,7 @@ def simple_check(prop, tier, replay, gens, kind, rule, tv_module=None, boundary=
         if "tool_error" in r:
             raise ToolError(r["tool_error"])
         m = r["mismatch"]
-        rep.violation({"vec": r["vec"], "what": m["what"]},
+        rep.violation({"vec": r["vec"], "what": m["what"], "actual": m["actual"]},
                       f"{m['what']}: expected {json.dumps(m['expected'])[:300]} got {json.dumps(m['actual'])[:300]} on {json.dumps(r['vec'])[:400]}")
     tvres = {"events": 0, "cases": 0, "cases_accepted": 0, "states": 0, "wall": 0}
     if tv_module:
@@ -347,6 +347,49 @@ def c25(prop, tier, replay):
         describe=lambda first, ev, run_ev: ({"vec": ev.get("vec"), "why": ev.get("why"), "stage": ev.get("stage")}, json.dumps(ev)[:500]))
 
 
+def c26(prop, tier, replay):
+    from p_bnf import universe, with_, R_WIDE
+    import random
+    rnd = random.Random(pvlib.seed())
+    files = corpus_pars()
+    nmut = 3 if tier == "quick" else 40
+    extra = [{"par": open(f).read(), "id": f, "seed": pvlib.seed() * 7919 + i, "mutations": nmut} for i, f in enumerate(files)]
+    for i in range(200 if tier == "quick" else 5000):
+        n = rnd.randint(0, 40)
+        extra.append({"bytes": [rnd.choice([rnd.randint(0, 255), ord(rnd.choice("%:;|'\"/(){}[]<>^@ SabA\n"))]) for _ in range(n)], "id": f"bytes{i}"})
+    gens = [{"module": "Gen_G", "constants": with_(universe(tier), Filter="all"), "invariants": ["Emit"], "spec": "ESpec", "nshards": 16},
+            {"module": "Gen_G", "constants": with_(R_WIDE, Filter="all"), "invariants": ["Emit"], "spec": "ESpec", "nshards": 16,
+             "simulate": 40 if tier == "quick" else 1500, "depth": 12}] + ebnf_gens(tier, False)
+    return simple_check(
+        prop, tier, replay, gens, "c26",
+        "the whole pipeline (read, check/transform, lookahead analysis or LALR(1) table, lexer + parser + user-trait generation) under "
+        "catch_unwind on: every grammar of the exhaustive universe unfiltered (non-productive, unreachable, left-recursive, cyclic, "
+        "conflicting, start-recursive) as LL(k) and LALR(1) with lookahead limits 1, 3, 10; the EBNF universes; every .par file of the "
+        f"repository as it is and with {nmut} seeded mutations each (deleted / duplicated / swapped / truncated spans, inserted PAR "
+        "punctuation and directives); random byte strings. A panic (reported with its source location) is a violation; Err is fine. "
+        "non-trivial: the text got past the front end",
+        level="exploration", extra_vectors=extra, exhaustive=False,
+        nontrivial_tags=["accepted", "rejected_check", "rejected_analysis"],
+        assumptions=["a stage that produces no result within 30 s is counted, not reported: the property is about panics"])
+
+
+def c19(prop, tier, replay):
+    from p_bnf import universe, with_, R_WIDE
+    gens = [{"module": "Gen_G", "constants": with_(universe(tier), Filter="wf"), "invariants": ["Emit"], "spec": "ESpec", "nshards": 16},
+            {"module": "Gen_G", "constants": with_(R_WIDE, Filter="wf"), "invariants": ["Emit"], "spec": "ESpec", "nshards": 16,
+             "simulate": 40 if tier == "quick" else 1500, "depth": 12}]
+    n = 12 if tier == "quick" else 120
+    return simple_check(
+        prop, tier, replay, gens, "c19",
+        f"every well-formed grammar of the universe is built as LL(k) and as LALR(1) parser (when parol accepts it); each parser runs on {n} "
+        "seeded random inputs - token soups of up to 40 pieces over the grammar's terminals, a foreign token, comments (also unterminated), "
+        "newlines, a multi-byte character, and random code-point strings - with recovery enabled and disabled, each run in its own thread with "
+        "a 10 s deadline under catch_unwind; LR runs carry a depth limit of 20000 so that a runaway table ends as a reported non-termination. "
+        "Violations: panic, no result, runaway, more than 100 error entries or two entries at one location. The bounded-work discipline of "
+        "recovery on all short inputs is also checked step by step by LLParser.tla in C01/C02. non-trivial: parser built",
+        level="exploration", pv_env={"PV_C19_INPUTS": n}, exhaustive=False, nontrivial_tags=["LL_accepted", "LR_accepted"])
+
+
 def c21(prop, tier, replay):
     return tables_check(prop, tier, replay,
                         "for every accepted grammar of three sources - the TLC-enumerated well-formed grammar universe as LL(k) and as LALR(1), the "
@@ -358,4 +401,4 @@ def c21(prop, tier, replay):
                         "predicted productions belong to their non-terminal). non-trivial = grammar accepted")
 
 
-REGISTRY = {"C31": c31, "C32": c32, "C09": c09, "C21": c21, "C33": c33, "C18": c18, "C25": c25}
+REGISTRY = {"C31": c31, "C32": c32, "C09": c09, "C21": c21, "C33": c33, "C18": c18, "C25": c25, "C26": c26, "C19": c19}
